@@ -676,6 +676,55 @@ fn cmd_run(args: &Args) {
     let ptab: Vec<Entry> = if prop != Prop::C11 { ponly::table().into_iter().filter(|e| only.as_ref().map_or(true, |o| *o == e.l.name() || *o == e.l.family())).collect() } else { vec![] };
     results.extend(run_jobs(&ptab, |e| run_layout(e, &pd, prop, tier)));
     let probe_only_layouts = ptab.len() as u64;
+    // `LossyFrom` between primitives (integer -> wider integer, bool -> integer under C04; integer -> float under C05):
+    // wherever the crate has the impl, an integer destination must hold the source value and a float destination
+    // must be the correctly rounded value. Only the engine that owns the full tables runs it.
+    if crate::NAME == "prim" && (prop == Prop::C04 || prop == Prop::C05) && only.is_none() {
+        let mut r = Report::new(crate::NAME, "", tier.name());
+        let mut impls = 0u64;
+        for src in 0..13usize {
+            for dst in (0..15usize).filter(|d| *d != 12) {
+                let to_float = dst >= 13;
+                if to_float != (prop == Prop::C05) {
+                    continue;
+                }
+                let mut exists = false;
+                for &a in &pd.conv[src] {
+                    let got = subject(|| prim_lossy(src, dst, a)).unwrap_or(Out::Panic);
+                    if got == Out::C(NOIMPL) {
+                        break;
+                    }
+                    exists = true;
+                    r.states += 1;
+                    r.transitions += 1;
+                    r.judged += 1;
+                    // exact source value
+                    let z = if src == 12 { Z::from_u128(a & 1) } else { prim_layout(src).unwrap().z(a) };
+                    let exp = if to_float {
+                        let mag = z.abs().low128();
+                        if dst == 13 { Out::F32(ieee::encode_f32(z.is_neg(), mag, 0)) } else { Out::F64(ieee::encode_f64(z.is_neg(), mag, 0)) }
+                    } else {
+                        let dl = prim_layout(dst).unwrap();
+                        if dl.fits(&z) { Out::V(dl.wrap(&z)) } else { Out::E(2) }
+                    };
+                    if got != exp {
+                        r.violation(Violation {
+                            key: format!("prim-to-prim LossyFrom<{}> for {}", PRIMS[src], PRIMS[dst]),
+                            diff: if exp == Out::E(2) { "LossyFrom-loses-integer-bits".into() } else { "value".into() },
+                            case: format!("prim-lossy {} {} {:#x}", PRIMS[src], PRIMS[dst], a),
+                            observed: got.to_string(),
+                            expected: exp.to_string(),
+                            note: format!("{}::lossy_from({} {})", PRIMS[dst], PRIMS[src], z),
+                            kf: None,
+                        });
+                    }
+                }
+                impls += exists as u64;
+            }
+        }
+        r.extra.insert("prim_to_prim_lossyfrom_impls_exercised".into(), impls);
+        results.push(JobOut { rep: r, dig: vec![], returned: vec![] });
+    }
     // thorough tier, C05: every one of the 2^32 f32 bit patterns into a fixed list of layouts
     let mut swept = vec![];
     if prop == Prop::C05 && tier == Tier::Thorough && !args.has("no-exhaustive") {
@@ -758,6 +807,23 @@ fn exec_case(tab: &[Entry], p: &[&str]) -> (Layout, usize, usize, u128, u128, Ou
 }
 
 fn cmd_replay(a: &[String]) -> i32 {
+    if a.len() == 3 && PRIMS.contains(&a[0].as_str()) {
+        // prim-lossy SRC DST A
+        let (src, dst) = (PRIMS.iter().position(|p| *p == a[0]).unwrap(), PRIMS.iter().position(|p| *p == a[1]).unwrap());
+        let x = parse_hex(&a[2]);
+        let got = subject(|| prim_lossy(src, dst, x)).unwrap_or(Out::Panic);
+        let z = if src == 12 { Z::from_u128(x & 1) } else { prim_layout(src).unwrap().z(x) };
+        let exp = if dst >= 13 {
+            let mag = z.abs().low128();
+            if dst == 13 { Out::F32(ieee::encode_f32(z.is_neg(), mag, 0)) } else { Out::F64(ieee::encode_f64(z.is_neg(), mag, 0)) }
+        } else {
+            let dl = prim_layout(dst).unwrap();
+            if dl.fits(&z) { Out::V(dl.wrap(&z)) } else { Out::E(2) }
+        };
+        println!("profile:  {}\ncall:     {}::lossy_from({} {})\nobserved: {}\nexpected: {}", vcore::profile_name(), a[1], a[0], z, got, exp);
+        println!("{}", if got == exp { "AGREES" } else { "DIFFERS" });
+        return if got == exp { 0 } else { 1 };
+    }
     let mut tab = table();
     tab.extend(ponly::table());
     let p: Vec<&str> = a.iter().map(|s| s.as_str()).collect();
